@@ -609,6 +609,29 @@ fn native_spec() {
                 }
             }
         }
+    } else if target == "positional_counter" {
+        // C05: after `--` the tail goes to the `last` positional, verbatim, whether or not the current positional was terminated
+        let raw = |m: &crate::ArgMatches, id: &str| -> Vec<String> { m.get_raw(id).map(|v| v.map(|s| s.to_string_lossy().into_owned()).collect()).unwrap_or_default() };
+        for (argv, want_cmd, want_rest) in [
+            (vec!["run", "--", "a", ";", "-v", "--", "b"], vec![], vec!["a", ";", "-v", "--", "b"]),
+            (vec!["run", "x", "y", "--", "z", ";"], vec!["x", "y"], vec!["z", ";"]),
+            (vec!["run", "x", ";", "--", "z", "w"], vec!["x"], vec!["z", "w"]),
+            (vec!["run", "--", "z"], vec![], vec!["z"]),
+            (vec!["run", "x"], vec!["x"], vec![]),
+        ] {
+            let cmd = Command::new("run")
+                .arg(Arg::new("verbose").short('v').action(ArgAction::SetTrue))
+                .arg(Arg::new("cmd").num_args(1..).value_terminator(";").action(ArgAction::Append))
+                .arg(Arg::new("rest").num_args(1..).last(true).action(ArgAction::Append));
+            match cmd.try_get_matches_from(argv.clone()) {
+                Ok(m) => {
+                    if raw(&m, "cmd") != want_cmd || raw(&m, "rest") != want_rest || m.get_flag("verbose") {
+                        println!("SPEC-REPLAY MISMATCH target=positional_counter case={argv:?}: cmd={:?} rest={:?} verbose={} expected cmd={want_cmd:?} rest={want_rest:?}", raw(&m, "cmd"), raw(&m, "rest"), m.get_flag("verbose"));
+                    }
+                }
+                Err(e) => println!("SPEC-REPLAY MISMATCH target=positional_counter case={argv:?}: rejected as {:?}", e.kind()),
+            }
+        }
     } else if target == "match_arg_error" {
         // C10: the error kind names a rule the input really breaks
         for acws in [false, true] {
